@@ -3,15 +3,4 @@ NOTES = ("One entry point: ./check <id> --tier quick|thorough. Every check rebui
          "(override with VERIF_REPO for scratch worktrees), re-checks the Lean proofs and their axioms, and runs the "
          "model/implementation correspondence. known_findings.json lists recorded defects; see DESIGN.md.")
 NOT_APPLICABLE = {}
-_TB = ("Trusted: Lean kernel; axioms propext/Classical.choice/Quot.sound; the hand-written model is tied to the code only by the "
-       "correspondence harness (generators + canonicalisation) and g++/sanitizer runtimes; std:: components are assumed to meet their specifications.")
-CLAIMED = {
- "C10": dict(
-    text=("Lean 4 theorems over an executable model of FlatMap and ParameterizedObject: key uniqueness for every history, refinement "
-          "to an insertion-ordered reference map (lookup function + key order) for every history, at() throws iff absent, erase keeps "
-          "order, re-insertion appends, type-mismatched reads return the default and touch nothing, query flag characterised for every "
-          "history. The model is tied to the code by running the same random op histories through the real classes (4 key/value "
-          "instantiations, 6 parameter types, ASan/UBSan) and the compiled model and diffing every observation."),
-    note=_TB,
-    technique="Lean 4 proof (induction over operation histories, refinement) + differential correspondence check model vs real code"),
-}
+CLAIMED = {}
